@@ -2150,6 +2150,8 @@ def array(*args: typing.Any, **kwargs: typing.Any) -> VectorNumpy:
         names = numpy.dtype(kwargs["dtype"]).names or ()
     elif len(args) >= 2:
         names = numpy.dtype(args[1]).names or ()
+    elif len(args) == 1 and isinstance(args[0], numpy.ndarray):
+        names = args[0].dtype.names or ()
     else:
         names = ()
 
